@@ -104,6 +104,7 @@ pub enum ROp {
     AsyncWait { a: usize, write: bool },
     /// harness wrote to the peer of / read from the adapter's fd
     AsyncIo { a: usize },
+    Wakeup,
     InsertBad { which: u8, fd: i32 },
 }
 
